@@ -442,7 +442,7 @@ type holdIv struct {
 // before each of its operations, so all of them wake at the same instant and their calls overlap for real, while
 // the logger (size rotation, compression goroutines, optionally its own flush loop) sees a clock the harness owns.
 func TestPropConcurrentDisjoint(t *testing.T) {
-	vstat.Checks(1200, 30000)
+	vstat.Checks(1500, 30000)
 	dir := t.TempDir()
 	rapid.Check(t, func(rt *rapid.T) {
 		cfg := genRoomyCfg().Draw(rt, "cfg")
